@@ -81,25 +81,29 @@ def binImgs(data, n):
     
     n = int(numpy.round(n))
 
+    # accumulate like numpy.sum does: integer and boolean frames in a wide
+    # integer, so that block sums do not wrap around in e.g. uint8 / uint16
+    acc_dtype = numpy.zeros(1, dtype=data.dtype).sum().dtype
+
     if len(data.shape)==2:
         shape[-1]/=n
-        binnedImgTmp = numpy.zeros( shape, dtype=data.dtype )
+        binnedImgTmp = numpy.zeros( shape, dtype=acc_dtype )
         for i in range(n):
             binnedImgTmp += data[:,i::n]
         shape[-2]/=n
-        binnedImg = numpy.zeros( shape, dtype=data.dtype )
+        binnedImg = numpy.zeros( shape, dtype=acc_dtype )
         for i in range(n):
             binnedImg += binnedImgTmp[i::n,:]
 
         return binnedImg
     else:
         shape[-1]/=n
-        binnedImgTmp = numpy.zeros ( shape, dtype=data.dtype )
+        binnedImgTmp = numpy.zeros ( shape, dtype=acc_dtype )
         for i in range(n):
             binnedImgTmp += data[...,i::n]
 
         shape[-2] /= n
-        binnedImg = numpy.zeros( shape, dtype=data.dtype )
+        binnedImg = numpy.zeros( shape, dtype=acc_dtype )
         for i in range(n):
             binnedImg += binnedImgTmp[...,i::n,:]
 
